@@ -115,8 +115,11 @@ def gen_stack(rng, kind, leaves, allow_norm=False):
             k = rng.choice(sorted(leaves))
             ws.append({"w": "extract", "key": k})
             kind, leaves = "box", {"0": leaves[k]}
+        elif w == "monitor":
+            # constructor parameters: results file and extra info keywords (the scripted info dicts always carry "tag" here)
+            ws.append({"w": w, "file": rng.random() < 0.3, "info_keywords": rng.random() < 0.3})
         else:
-            ws.append({"w": w})
+            ws.append({"w": w, "raise_exception": rng.random() < 0.7, "warn_once": rng.random() < 0.5, "check_inf": rng.random() < 0.5})
         if max(max(s) for s, _ in leaves.values()) > 40:
             break
     return ws, kind, leaves
@@ -140,7 +143,7 @@ def gen_case(rng, idx, with_norm=False):
         else:
             ops.append(["step", list(range(aid, aid + n))])
             aid += n
-    return {"base": base, "wrappers": ws, "n": n, "scripts": scripts, "ops": ops, "final": [fkind, {k: [list(s), d] for k, (s, d) in fleaves.items()}], "id": idx}
+    return {"base": base, "wrappers": ws, "n": n, "scripts": scripts, "ops": ops, "seed_through_stack": rng.choice([None, None, rng.randint(0, 99)]), "final": [fkind, {k: [list(s), d] for k, (s, d) in fleaves.items()}], "id": idx}
 
 
 # ---------------------------------------------------------------- implementation
@@ -173,11 +176,17 @@ def build(case):
         elif w["w"] == "extract":
             venv = VecExtractDictObs(venv, w["key"])
         elif w["w"] == "monitor":
-            venv = VecMonitor(venv)
+            fname = None
+            if w.get("file"):
+                import tempfile
+
+                fname = os.path.join(tempfile.mkdtemp(prefix="c17_vecmonitor_"), "run")
+                case.setdefault("_tmpdirs", []).append(os.path.dirname(fname))
+            venv = VecMonitor(venv, filename=fname, info_keywords=("tag",) if w.get("info_keywords") else ())
         elif w["w"] == "normalize":
             venv = VecNormalize(venv, norm_obs=w["norm_obs"], norm_reward=w["norm_reward"], clip_obs=w["clip_obs"], clip_reward=2.0, gamma=0.9)
         elif w["w"] == "checknan":
-            venv = VecCheckNan(venv, raise_exception=True)
+            venv = VecCheckNan(venv, raise_exception=w.get("raise_exception", True), warn_once=w.get("warn_once", True), check_inf=w.get("check_inf", True))
     return venv
 
 
@@ -226,9 +235,17 @@ def run_impl(case, ops=None):
                 bad.append(where)
 
         try:
+            sd = case.get("seed_through_stack")
+            if sd is not None:
+                venv.seed(sd)                      # VecEnvWrapper.seed / set_options forward to the wrapped VecEnv
+                venv.set_options({"k": sd})
             for k, op in enumerate(ops):
                 if op[0] == "reset":
                     obs = venv.reset()
+                    if sd is not None and k == 0:
+                        first = [lg[0] for lg in venv.env_method("get_log")]
+                        if first != [("reset", sd + i, {"k": sd}) for i in range(n)]:
+                            bad.append(f"seed/options set through the wrapper stack did not reach the sub-environments: {first}")
                     snap()
                     for i in range(n):
                         o = _one(obs, i)
@@ -247,6 +264,10 @@ def run_impl(case, ops=None):
                         per_env[i].append(("step", o, float(rews[i]) * 4, bool(dones[i]), infos[i].get("TimeLimit.truncated"), term))
         finally:
             venv.close()
+            import shutil
+
+            for d in case.pop("_tmpdirs", []):
+                shutil.rmtree(d, ignore_errors=True)
     return {"per_env": per_env, "inspace": bad, "declared": space, "snaps": snaps}
 
 
@@ -392,7 +413,7 @@ def oracle(case, impl, ops=None):
                     if not same(obs, want):
                         probs.append(("oracle-stacked-observation", f"{where}: observation is not the zero-padded last frames of the current episode"))
     for wbad in impl["inspace"][:3]:
-        probs.append(("oracle-observation-not-in-declared-space", wbad))
+        probs.append(("oracle-seed-options-through-wrapper-stack" if wbad.startswith("seed/options") else "oracle-observation-not-in-declared-space", wbad))
     # declared space shape = what the wrappers were promised to produce (computed from the rules above)
     fkind, fleaves = case["final"]
     sp = impl["declared"]
@@ -593,6 +614,44 @@ def run_sync_stream(chk, n_cases):
     return stats
 
 
+
+def run_rejection_checks(chk):
+    """the documented preconditions of the wrappers: ill-typed stacks are refused at construction"""
+    import warnings
+
+    import numpy as np
+    from gymnasium import spaces
+
+    from harness import scripted_envs as se
+    from stable_baselines3.common.vec_env import DummyVecEnv, VecExtractDictObs, VecFrameStack, VecTransposeImage
+
+    script = {"episodes": [{"reset_tag": 1, "reset_info": 0, "steps": [{"tag": 2, "r4": 0, "term": True, "trunc": False, "info": 0}]}]}
+
+    def mk(space):
+        return DummyVecEnv([se.make_env_fn(script, obs_space=space, act_kind="discrete")])
+
+    checks = [
+        ("framestack-on-discrete", lambda: VecFrameStack(mk(spaces.Discrete(5)), 2), AssertionError),
+        ("framestack-box-with-per-key-order", lambda: VecFrameStack(mk(make_space("box1")), 2, channels_order={"a": "first"}), TypeError),
+        ("framestack-invalid-order", lambda: VecFrameStack(mk(make_space("box1")), 2, channels_order="middle"), AssertionError),
+        ("transpose-on-channels-first-image", lambda: VecTransposeImage(mk(make_space("img_chw"))), AssertionError),
+        ("transpose-on-non-image", lambda: VecTransposeImage(mk(make_space("box1"))), AssertionError),
+        ("extract-on-box", lambda: VecExtractDictObs(mk(make_space("box1")), "a"), AssertionError),
+    ]
+    done = 0
+    with warnings.catch_warnings():
+        warnings.simplefilter("ignore")
+        for name, f, exc in checks:
+            try:
+                v = f()
+                v.close()
+                chk.violation(f"oracle-ill-typed-stack-accepted-{name}", f"{name}: the wrapper accepted a space its documentation excludes", {"check": name}, found_input=True)
+                return done
+            except exc:
+                done += 1
+    return done
+
+
 # ---------------------------------------------------------------- driver
 
 def shrink(case, sig):
@@ -679,6 +738,7 @@ def main():
             break
     sync_stats = run_sync_stream(chk, 100 if chk.tier == "quick" else 1000) if not chk.violations else {}
     chk.notes["sync_and_unwrap_stream"] = sync_stats
+    chk.notes["ill_typed_stacks_rejected"] = run_rejection_checks(chk) if not chk.violations else 0
     chk.coverage["evaluations"] = len(cases) + sync_stats.get("sync", 0) + sync_stats.get("unwrap", 0)
     chk.coverage["traces_validated_against_impl"] = len(cases) + sync_stats.get("sync", 0) + sync_stats.get("unwrap", 0)
     chk.coverage["distinct_nontrivial"] = len(distinct)
